@@ -403,7 +403,7 @@ fn gen_case(family: &str, rng: &mut Rng, k: u64) -> Case {
     match family {
         "byte" => {
             let nn = 1 + (k % 3) as usize;
-            let alpha = [b'a', b'b', 0u8, 0x80, 0xff, b'c'];
+            let alpha = [b'a', b'b', 0u8, 0x80, 0xff, b'c', 0x7f, b'\n', b'/'];
             let n: Vec<u8> = (0..nn).map(|_| alpha[rng.below(alpha.len())]).collect();
             let len = match k % 5 {
                 0 => rng.below(40),
@@ -426,6 +426,39 @@ fn gen_case(family: &str, rng: &mut Rng, k: u64) -> Case {
                 for x in h.iter_mut() {
                     if rng.below(3) == 0 {
                         *x = n[0];
+                    }
+                }
+            }
+            if k % 2 == 1 && len > 0 {
+                // confusable bytes: one bit / one unit away from a needle byte, sprinkled and planted next to hits, so
+                // that borrow/carry mistakes of word-at-a-time tricks and wrong lane masks become visible
+                let conf = |rng: &mut Rng, nb: u8| -> u8 {
+                    match rng.below(8) {
+                        0 => nb ^ 1,
+                        1 => nb ^ 0x80,
+                        2 => nb.wrapping_add(1),
+                        3 => nb.wrapping_sub(1),
+                        4 => !nb,
+                        5 => nb ^ 0x81,
+                        6 => nb ^ 0x7f,
+                        _ => nb ^ (1u8 << rng.below(8)),
+                    }
+                };
+                let m = 1 + rng.below(1 + len / 3);
+                for _ in 0..m {
+                    let p = rng.below(len);
+                    let nb = n[rng.below(nn)];
+                    if h[p] == fill {
+                        h[p] = conf(rng, nb);
+                    }
+                }
+                for p in 0..len {
+                    if n.contains(&h[p]) && rng.below(2) == 0 {
+                        let nb = h[p];
+                        let q = if rng.below(2) == 0 { p + 1 } else { p.wrapping_sub(1) };
+                        if q < len && !n.contains(&h[q]) {
+                            h[q] = conf(rng, nb);
+                        }
                     }
                 }
             }
